@@ -39,6 +39,9 @@ var c08Results = []presult{
 	// a sub-name value that itself ends in -digits, in a part that is NOT the last one (only the end of the whole
 	// name is a gomaxprocs suffix), next to the same name without the tail
 	{"X/k=1-4/j=2-8", [][3]string{{"goos", "linux", "f"}}, []string{"u1"}},
+	// other sub-name keys and positional parts that merely BEGIN with a projected key (/k): they stay in the name
+	{"X/k=1/kx=2", [][3]string{{"goos", "linux", "f"}}, []string{"u1"}},
+	{"X/k=1/kx=3/k", [][3]string{{"goos", "linux", "f"}}, []string{"u1"}},
 }
 
 var c08Exprs = []string{".config", ".fullname", ".name", "/k", "/gomaxprocs", "goos", "pkg", ".file"}
